@@ -379,6 +379,8 @@ def jobs(tier):
         t = cur[name]
         for culprit in culprits:
             for kind in ('finalize', 'raise'):
+                if q and kind == 'raise' and name != 'tb2':
+                    continue
                 for sync in [[], sorted(t['types'])] if len(t['types']) <= 2 else [[]]:
                     cfg = {'until': 3, 'K': 2, 'cache': True, 'lazy': lazy, 'D': 0, 'sync': sync, 'salt': 0, 'fin_fault': culprit}
                     out.append({'id': f"{name}|{culprit}|{kind}+finalize|sync={''.join(sync) or '-'}|lazy={int(lazy)}", 'harness': 'vk.kernels.c14:crash',
